@@ -345,18 +345,13 @@ func c26Judge(c c26Case, o *c26Obs, finished bool) ([]c08Finding, c26Stats) {
 			}
 			continue
 		}
-		if stopHi != 0 && !c.Serial && c.Jobs[ji].Tasks > 0 && sp.ran == 0 && len(failedRan) == 0 && err == nil {
-			// a job whose tasks were never executed although it reported success: only
-			// legitimate for an empty job
-			add("C26/tasks-not-run", "job %d reported success although none of its %d tasks ran (Stop was called)", ji, c.Jobs[ji].Tasks)
-		}
 		if len(failedRan) == 0 {
 			if err != nil {
 				add("C26/spurious-error", "job %d Wait returned %v although no executed task failed", ji, err)
 			} else {
 				st.jobsOK++
 				for t := range jo.counts {
-					if jo.counts[t].Load() == 0 && !(stopHi != 0 && sp.ran == 0) {
+					if jo.counts[t].Load() == 0 {
 						add("C26/task-not-run", "job %d: no executed task failed but task %d of %d never ran", ji, t, c.Jobs[ji].Tasks)
 						break
 					}
@@ -406,16 +401,9 @@ func c26Judge(c c26Case, o *c26Obs, finished bool) ([]c08Finding, c26Stats) {
 	if !finished || c.Serial {
 		return out, st
 	}
-	// Stop returned: jobs that had not started by then must have reported shutdown (they did not hang, we are finished)
 	for ji, jo := range o.jobs {
-		if !jo.created {
-			if stopLo == 0 || (c.Mode != "par" || c.Stop != "conc") {
-				add("C26/newjob-error", "NewJob for job %d failed with %v before Stop was called", ji, jo.newJobErr)
-			}
-			continue
-		}
-		if jo.waited.Load() && spans[ji].ran == 0 && c.Jobs[ji].Tasks > 0 && !errors.Is(jo.waitErr, workers.ErrShutdown) && jo.waitErr == nil && stopHi == 0 {
-			add("C26/tasks-not-run", "job %d reported success although none of its tasks ran", ji)
+		if !jo.created { // every NewJob of the scenario precedes the call of Stop
+			add("C26/newjob-error", "NewJob for job %d failed with %v before Stop was called", ji, jo.newJobErr)
 		}
 	}
 	if o.futureTried {
@@ -524,31 +512,32 @@ func TestC26(t *testing.T) {
 			}()
 			c26Drive(c, o)
 		})
-		res, stacks := kit.AwaitOrDeadlock(done, []string{"internal/workers"}, 1500*time.Millisecond, 120*time.Second)
+		// A Deadlock verdict is accepted only when two consecutive quiescence
+		// observations both show every driver goroutine parked inside the very
+		// call into internal/workers it had entered.
+		var res kit.WaitResult
+		var stacks string
 		var blocked []string
-		if res == kit.Deadlock {
-			// accept the witness only if the dump shows the driver goroutines parked inside the calls they entered, twice
-			ok := false
-			for try := 0; try < 2 && !ok; try++ {
-				blocked = o.blockedIn()
-				ok = len(blocked) > 0
-				for _, b := range blocked {
-					if !strings.Contains(stacks, b) {
-						ok = false
-					}
-				}
-				var res2 kit.WaitResult
-				res2, stacks = kit.AwaitOrDeadlock(done, []string{"internal/workers"}, 200*time.Millisecond, 120*time.Second)
-				if res2 != kit.Deadlock {
-					res = res2
-					break
-				}
-				same := fmt.Sprint(blocked) == fmt.Sprint(o.blockedIn())
-				ok = ok && same
+		prevOK, prevBlocked := false, ""
+		grace := 1500 * time.Millisecond
+		for try := 0; try < 6; try++ {
+			res, stacks = kit.AwaitOrDeadlock(done, []string{"internal/workers"}, grace, 120*time.Second)
+			grace = 200 * time.Millisecond
+			if res != kit.Deadlock {
+				break
 			}
-			if res == kit.Deadlock && !ok {
-				res = kit.Unknown
+			blocked = o.blockedIn()
+			ok := len(blocked) > 0
+			for _, b := range blocked {
+				if !strings.Contains(stacks, b) {
+					ok = false
+				}
 			}
+			if ok && prevOK && prevBlocked == fmt.Sprint(blocked) {
+				break
+			}
+			prevOK, prevBlocked = ok, fmt.Sprint(blocked)
+			res = kit.Unknown
 		}
 		finished := res == kit.Returned
 		if finished && panicked {
